@@ -388,26 +388,33 @@ def process_fn(src, unit, key, spec, s, hp, ob, cb, add_edit, canary, disabled_r
 
     # loops
     loops = spec.get('loops', {})
-    if loops:
+    if loops or spec.get('loop_obligations'):
         found = find_loops(src, ob, cb)
         for ordinal, inv in loops.items():
             if ordinal >= len(found):
-                raise AnchorLost('%s: loop #%d not found (have %d)' % (key, ordinal, len(found)))
+                # a loop is gone: the remaining ones keep their invariants by ordinal and the function is verified as it is, but a
+                # failure is trusted only together with a concrete failing input (same rule as for extra loops / lost hint anchors)
+                info.degraded.append('%s: loop #%d not found (have %d)' % (key, ordinal, len(found)))
+                continue
             kwp, lob = found[ordinal]
             add_edit(lob, lob, '\n' + inv.strip() + '\n' + indent + '    ', prio=1)
+        # obligations stated inside a loop body (part of the contract, unlike hints: never dropped when anchors are lost)
+        for ordinal, text_ in spec.get('loop_obligations', {}).items():
+            if ordinal >= len(found):
+                continue
+            kwp, lob = found[ordinal]
+            add_edit(lob + 1, lob + 1, ' ' + text_ + ' ', prio=4)
         # name the ghost iterator of a `for` loop (`for x in e` -> `for x in iter: e`): Verus-only annotation, erased
         for ordinal, gname in spec.get('loop_iter', {}).items():
             if ordinal >= len(found):
-                raise AnchorLost('%s: loop #%d not found (have %d)' % (key, ordinal, len(found)))
+                continue
             kwp, lob = found[ordinal]
             mt = re.search(r'\bin\b\s+', text[kwp:lob])
             if not text[kwp:].startswith('for') or not mt:
                 raise AnchorLost('%s: loop #%d is not a for loop' % (key, ordinal))
             add_edit(kwp + mt.end(), kwp + mt.end(), gname + ': ', prio=1)
         if spec.get('loop_count') is not None and spec['loop_count'] != len(found):
-            if len(found) < spec['loop_count']:
-                raise AnchorLost('%s: expected %d loops, found %d' % (key, spec['loop_count'], len(found)))
-            # extra loops: the invariants may sit on the wrong loops and the new loop has none.  The function is verified as it
+            # fewer or extra loops: the invariants may sit on the wrong loops and the new loop has none.  The function is verified as it
             # is, but a failure is trusted only together with a concrete failing input (same rule as for lost hint anchors)
             info.degraded.append('%s: expected %d loops, found %d' % (key, spec['loop_count'], len(found)))
 
@@ -431,6 +438,9 @@ def process_fn(src, unit, key, spec, s, hp, ob, cb, add_edit, canary, disabled_r
                 return None
         return why
     losses = [l for l in (anchor_lost(i) for i in spec.get('inserts', [])) if l]
+    nloops = len(find_loops(src, ob, cb))
+    losses += ['%s: loop #%d not found (have %d)' % (key, i.get('loop_end', i.get('loop_start')), nloops)
+               for i in spec.get('inserts', []) if ('loop_end' in i or 'loop_start' in i) and i.get('loop_end', i.get('loop_start')) >= nloops]
     info.degraded.extend(losses)
     for ins in ([] if losses else spec.get('inserts', [])):
         if 'loop_end' in ins or 'loop_start' in ins:
